@@ -8,7 +8,8 @@ META = {
                    'wait_and_lock locks fe->mutex first, waits on cond[status_to_wait] with that same mutex inside a loop that '
                    're-reads status, returns only on the edge status == status_to_wait and never unlocks; mark_and_signal stores '
                    'the new status, then signals cond[status_to_signal], then unlocks fe->mutex, in that order; the condition '
-                   'variable is indexed by the very parameter compared/stored; plain lock/unlock forward to the same mutex.',
+                   'variable is indexed by the very parameter compared/stored; plain lock/unlock forward to the same mutex.'
+                   ' The initialiser writes every field the operations read (C09.4).',
     'not_decided': 'exactly-once consumption and absence of sleeping-forever in producer/consumer exchanges (liveness; rests '
                    'on the C04/C05 obligations, which this check does not re-explore)',
     'assumptions': ['status values are 0 or 1 (two condition variables)'],
